@@ -449,12 +449,11 @@ func diskRun(lines []string) {
 		w := strings.Fields(l)
 		isNew := len(w) > 0 && (w[0] == "new" || w[0] == "newimg")
 		if dd.hung {
-			if !isNew {
-				proto.Reply("hang")
-				continue
-			}
-			// leave the stuck disk (and whatever goroutine still sits in it) behind
-			dd = &diskDriver{path: dd.path, glob: dd.glob, async: dd.async, file: dd.file}
+			// once an operation has hung nothing else is tried in this process (every further hang would cost the full
+			// wait): the first one is the finding
+			_ = isNew
+			proto.Reply("hang")
+			continue
 		}
 		if optPin {
 			// under strace fault injection every system call must come from the pinned thread: no watchdog
